@@ -154,7 +154,8 @@ func ZZ_Step() {
 	wait := 0
 	inCmd := false
 	ranCmd := false
-	fedArg := false
+	fed := 0
+	inOp := false
 	var before []rune
 
 	script.OnWait = func() {
@@ -181,16 +182,31 @@ func ZZ_Step() {
 				src.Write(string(buf) + "x yz w")
 				rl.History.Add("zzhist", src)
 			}
-			keys := zzKeysFor(rl, mode, cmd)
+			lk := mode
+			if zzverif.Param("lk") != "" {
+				lk = zzverif.Param("lk") // the command is looked up in this (local) keymap
+			}
+			keys := zzKeysFor(rl, lk, cmd)
 			zzverif.Assume(keys != "")
+			if op := zzverif.Param("op"); op != "" {
+				// the pending operator that the prefix key starts: it may read a key too
+				origOp := rl.Keymap.Commands()[op]
+				rl.Keymap.Register(map[string]func(){op: func() {
+					inOp = true
+					origOp()
+					inOp = false
+				}})
+			}
 			// wrap the command to know whether a wait happens inside it
 			orig := rl.Keymap.Commands()[cmd]
-			rl.Keymap.Register(map[string]func(){cmd: func() {
-				inCmd = true
-				ranCmd = true
-				orig()
-				inCmd = false
-			}})
+			if orig != nil { // (the default vi-opp keymap binds j/k to names that no command has)
+				rl.Keymap.Register(map[string]func(){cmd: func() {
+					inCmd = true
+					ranCmd = true
+					orig()
+					inCmd = false
+				}})
+			}
 			script.Chunks = [][]byte{[]byte(prefix + zzArgKeys(mode, arg) + keys)}
 			zzverif.Note("keys", prefix+zzArgKeys(mode, arg)+keys)
 			return
@@ -206,10 +222,16 @@ func ZZ_Step() {
 			bpos, epos := rl.selection.Pos()
 			zzverif.Assert(bpos >= 0 && bpos <= length && epos >= 0 && epos <= length, "selection-in-buffer")
 		}
-		if inCmd && !fedArg {
+		if inCmd && fed == 0 {
 			// the command asked for a key: hand it an arbitrary one
-			fedArg = true
+			fed = 1
 			script.Chunks = append(script.Chunks, []byte{zzverif.Byte("argkey")})
+			return
+		}
+		if inOp && !inCmd && fed < 2 {
+			// the pending operator asked for a key (e.g. the new surround character)
+			fed = 2
+			script.Chunks = append(script.Chunks, []byte{zzverif.Byte("argkey2")})
 			return
 		}
 		if script.Remaining() > 0 {
